@@ -25,7 +25,7 @@ fn crc32c_bitwise(data: &[u8]) -> u32 {
 
 macro_rules! k_assert_slice_crc {
     ($name:ident, $n:expr) => {
-        // oblig: C05.a.assert_slice_crc kind=bounded(data<=3bytes) timeout=600
+        // oblig: C05.a.assert_slice_crc kind=bounded(data<=3bytes) timeout=900 tier=thorough
         #[kani::proof]
         #[kani::unwind(10)]
         #[kani::stub(std::backtrace::Backtrace::capture, bt_stub)]
@@ -45,7 +45,7 @@ k_assert_slice_crc!(k_c05_assert_slice_crc_1, 1);
 k_assert_slice_crc!(k_c05_assert_slice_crc_2, 2);
 k_assert_slice_crc!(k_c05_assert_slice_crc_3, 3);
 
-// oblig: C05.a.serializer_close kind=bounded(data=2bytes) timeout=600
+// oblig: C05.a.serializer_close kind=bounded(data=2bytes) timeout=900 tier=thorough
 #[kani::proof]
 #[kani::unwind(10)]
 fn k_c05_serializer_close() {
